@@ -322,7 +322,13 @@ def check(pid, tier='quick', seed=0, shared=None, write_evidence=True, quiet=Fal
                 inconclusive.append(f'{wname}: {fq} contains {fn["guards_left"]} match guard(s) that R10 does not desugar and no longer verifies: '
                                     f'undecided (known Verus limitation with borrows across guards)')
                 continue
-            if any('post-condition of closure' in f['message'] or 'postcondition of closure' in f['message'] for f in fl):
+            closure_fail = [f for f in fl if 'post-condition of closure' in f['message'] or 'postcondition of closure' in f['message']]
+            if closure_fail and fn.get('shape_pin') and fn.get('shape') == fn.get('shape_pin') and all(f.get('labels') for f in closure_fail):
+                # everything AROUND the closures is byte-for-byte the text the closure contracts were written for (pinned shape
+                # hash), so the closure is used exactly as before and now computes something else: a decided failure of the
+                # clause(s) its contract carries
+                pass
+            elif closure_fail:
                 # the contract attached (by ordinal) to a closure no longer describes that closure: the annotation, not
                 # necessarily the behaviour, is off; everything proved in this function assumed it -> undecided
                 inconclusive.append(f'{wname}: a closure of {fq} no longer satisfies the contract the annotation pins on it; '
